@@ -40,6 +40,10 @@ func (l *Lexer) Next() bool {
 	var st stateFunc
 
 	for st = l.state; !l.finished(); {
+		if verifOn {
+			verifTick()
+		}
+
 		var c rune
 		var s int
 		var err error
